@@ -166,20 +166,28 @@ def run(ctx, f, rep):
                 reg = fq.lock_regions(p)
                 rep.check(reg.get(pi) is not None and all(reg.get(w) == reg.get(pi) for w in wakes), "R06.2", "R06.2|%s|under-lock" % b.path,
                           "%s pushes and wakes inside one lock region" % b.path, b.loc())
-    # insert reachable only through a guard
-    ins = [b for b in pushers if b.j.get("name") == "insert"]
-    sites = 0
+    # `&mut self` methods of the queue state (insert, remove, clear) run under its lock - by the type system, provided the state
+    # is only ever built straight into a Mutex and nothing reaches around the lock: then every `&mut QueueInner` is a guard's
+    built = 0
     for b in f.bodies:
-        if "::test" in b.path or b.kind not in ("AssocFn", "Fn", "Closure"):
+        if "::test" in b.path:
             continue
-        for bb, t, fn in b.calls():
-            if fn and fn["name"] == "insert" and "QueueInner" in fn["path"]:
-                sites += 1
-                e = b.expr_of_operand(t["args"][0])
-                through_guard = pathq.mentions_call(e, lambda x: short(x[1]) in ("deref_mut",) and "MutexGuard" in x[1]) is not None or \
-                    pathq.mentions_call(e, lambda x: short(x[1]) == "lock") is not None
-                rep.check(through_guard, "R06.2", "R06.2|insert-under-guard|%s" % b.path, "QueueInner::insert is reached through a MutexGuard in %s" % b.path, b.loc(bb))
-    rep.floor("R06.2", "call sites of QueueInner::insert", sites, 4)
+        for bb, blk in enumerate(b.blocks):
+            for st in blk["stmts"]:
+                if st["k"] == "assign" and st["rv"]["k"] == "aggregate" and (st["rv"].get("adt") or "") == ipath:
+                    built += 1
+                    l = st["place"]["l"] if not st["place"]["p"] else None
+                    into_mutex = False
+                    if l is not None:
+                        for bb2, t, fn in b.calls():
+                            if fn and fn["name"] == "new" and "Mutex" in fn["path"] and any(a.get("k") == "move" and a["place"]["l"] == l and not a["place"]["p"] for a in t["args"]):
+                                into_mutex = True
+                    rep.check(into_mutex, "R06.2", "R06.2|state-built-into-mutex|%s" % b.path,
+                              "the queue state is built straight into Mutex::new(..) in %s: no unlocked `&mut` to it can exist" % b.path, b.loc(bb))
+    rep.floor("R06.2", "construction sites of the queue state", built, 1)
+    around = [(b.path, fn["name"]) for b in f.bodies if "::test" not in b.path for bb, t, fn in b.calls()
+              if fn and fn["name"] in ("data_ptr", "make_guard_unchecked", "force_unlock", "force_unlock_fair", "get_mut", "into_inner", "raw") and "lock_api::Mutex" in fn["path"]]
+    rep.check(not around, "R06.2", "R06.2|no-access-around-the-lock", "nothing reaches around a parking_lot Mutex (data_ptr / force_unlock / get_mut / into_inner): %s" % around)
     # ordering
     cmps = [b for b in f.bodies if b.j.get("name") == "cmp" and (b.j.get("impl_trait") or "").endswith("cmp::Ord") and "fair_queue" in b.path]
     rep.floor("R06.3", "Ord::cmp of the ready event", len(cmps), 1)
